@@ -90,3 +90,62 @@ def main(args):
     json.dump({'summary': summary, 'results': out, 'wall_s': round(time.time() - t0, 1)}, open(rep, 'w'), indent=1)
     print(summary, 'wall %.0fs' % (time.time() - t0))
     return 0
+
+
+# ------------------------------------------------------------------------------------------------ independent seeds
+def run_seed(job):
+    """job = (seed id, which in ('patch', 'benign'), property). Applies the diff with `patch -p1` to a scratch copy."""
+    sid, which, prop = job
+    d = scratch_copy()
+    try:
+        diff = os.path.join(VERIF, 'seeded', sid, which + '.diff')
+        r = subprocess.run(['patch', '-p1', '-s', '-i', diff], cwd=d, stdout=subprocess.PIPE, stderr=subprocess.STDOUT, text=True)
+        if r.returncode != 0:
+            return {'id': sid, 'which': which, 'status': 'STALE', 'detail': r.stdout[-300:]}
+        env = dict(os.environ, VF_REPO=d)
+        r = subprocess.run([os.path.join(VERIF, 'vf'), 'check', prop, '--tier', 'quick'], env=env,
+                           stdout=subprocess.PIPE, stderr=subprocess.STDOUT, text=True, cwd=VERIF)
+        rules = sorted(set(l.strip().split(' fn=')[0].replace('rule=', '') for l in r.stdout.splitlines() if l.strip().startswith('rule=')))
+        if r.returncode not in (0, 1):
+            return {'id': sid, 'which': which, 'status': 'BROKEN', 'detail': r.stdout[-600:]}
+        fired = r.returncode == 1
+        only_undecided = fired and all(x.startswith(('UNDECIDED', 'ANCHOR-LOST')) for x in rules)
+        return {'id': sid, 'which': which, 'prop': prop, 'fired': fired, 'rules': rules[:6], 'only_undecided': only_undecided}
+    finally:
+        shutil.rmtree(d, ignore_errors=True)
+
+
+def main_seeds(args):
+    """./vf seeds [ids..]: every independent seeded change must be reported by the check of its own property; every
+    behaviour-preserving twin (benign.diff) must stay silent, except those whose meta.json records a known limitation."""
+    base = os.path.join(VERIF, 'seeded')
+    jobs = []
+    metas = {}
+    for sid in sorted(os.listdir(base)):
+        mp = os.path.join(base, sid, 'meta.json')
+        if not os.path.exists(mp) or (args and not any(sid.startswith(a) or a == json.load(open(mp))['property'] for a in args)):
+            continue
+        meta = json.load(open(mp))
+        metas[sid] = meta
+        jobs.append((sid, 'patch', meta['property']))
+        if os.path.exists(os.path.join(base, sid, 'benign.diff')):
+            jobs.append((sid, 'benign', meta['property']))
+    t0 = time.time()
+    summary = {}
+    out = []
+    from concurrent.futures import ThreadPoolExecutor
+    with ThreadPoolExecutor(max_workers=8) as ex:
+        for r in ex.map(run_seed, jobs):
+            if 'status' not in r:
+                limitation = 'FALSE ALARM' in metas[r['id']].get('status', '') or 'UNDECIDED' in metas[r['id']].get('status', '')
+                if r['which'] == 'patch':
+                    r['status'] = 'CAUGHT' if (r['fired'] and not r['only_undecided']) else ('CAUGHT-UNDECIDED' if r['fired'] else 'MISSED')
+                else:
+                    r['status'] = 'OK-SILENT' if not r['fired'] else ('KNOWN-LIMITATION' if limitation else 'FALSE-ALARM')
+            summary[r['status']] = summary.get(r['status'], 0) + 1
+            out.append(r)
+            print('%-8s %-7s %-18s %s' % (r['id'], r['which'], r['status'], r.get('rules') or r.get('detail') or ''))
+    json.dump({'summary': summary, 'results': out, 'wall_s': round(time.time() - t0, 1)},
+              open(os.path.join(VERIF, 'seeds_report.json'), 'w'), indent=1)
+    print(summary, 'wall %.0fs' % (time.time() - t0))
+    return 0
